@@ -50,7 +50,10 @@ func genSioTimers(t *rapid.T) SioTimerCase {
 			kinds = append(kinds, "park", "park")
 		}
 		if rapid.IntRange(0, 9).Draw(t, l+".rs") == 0 {
-			kinds = []string{"restart"}
+			// "restart": once the short timers have been delivered;
+			// "restartNow": at once, so that restored timers become due
+			// and fire in the new crew
+			kinds = []string{"restart", "restartNow"}
 		}
 		op := STOp{Kind: rapid.SampledFrom(kinds).Draw(t, l+".k"), Id: rapid.SampledFrom([]string{"a", "b", "c"}).Draw(t, l+".id")}
 		switch op.Kind {
@@ -330,9 +333,38 @@ func (h *sioHarness) deliver(wait time.Duration) bool {
 
 func (h *sioHarness) settle() { time.Sleep(3 * time.Millisecond) }
 
+// reported: the pending set as the crew has reported it to its host
+// (the store folded from Result.Changed, which is what a restart
+// resumes from).
+func (h *sioHarness) reported() map[string]bool {
+	out := map[string]bool{}
+	m := h.store["timers"]
+	if m == nil || m.State == nil {
+		return out
+	}
+	js, err := json.Marshal(m.State.Bs["timers"])
+	if err != nil {
+		h.failf("reported timers state not serialisable: %v", err)
+		return out
+	}
+	var x map[string]interface{}
+	json.Unmarshal(js, &x)
+	for id := range x {
+		out[id] = true
+	}
+	return out
+}
+
 func (h *sioHarness) checkPending(where string) {
 	h.settle()
-	p := h.pending()
+	h.checkPendingIn(where, "the crew's timers state", h.pending())
+	if h.bad == "" {
+		h.checkPendingIn(where, "the state the crew reported to its host", h.reported())
+	}
+}
+
+func (h *sioHarness) checkPendingIn(where, what string, p map[string]bool) {
+	where = where + " (" + what + ")"
 	now := time.Now()
 	for _, id := range []string{"a", "b", "c"} {
 		inc := h.live[id]
@@ -409,6 +441,10 @@ func checkSioTimers(c SioTimerCase) (v ev.Verdict) {
 					time.Sleep(time.Millisecond)
 				}
 				h.cancelTimer(op.Id)
+			}
+		case "restartNow":
+			if _, known := ev.IsKnown("C17", "C17/sio/restart"); !known {
+				h.restart()
 			}
 		case "restart":
 			if _, known := ev.IsKnown("C17", "C17/sio/restart"); !known {
